@@ -2,8 +2,8 @@
 defaults of auth_strict_key (driver signatures, the four PluginTransportArgs dataclasses), the
 type check of _setup_auth, the order and guards of the security-relevant calls in each library
 transport's open(), what the asyncssh transport hands to asyncssh.connect as known_hosts and which
-exceptions of connect() it maps, and the literals / test of the system transport's host-key
-options."""
+exceptions of connect() it maps, the literals / test of the system transport's host-key
+options, and that SSHKnownHosts keeps no memo of an earlier read of the file."""
 import ast
 import inspect
 import os
@@ -261,6 +261,84 @@ def object_state(cls):
     return sorted(names)
 
 
+CACHE_DECORATORS = ("lru_cache", "cache", "cached_property", "cachedmethod", "cached", "memoize", "memoized")
+STAT_CALLS = ("getmtime", "getctime", "getsize", "stat", "lstat", "fstat", "scandir")
+
+
+def known_hosts_memo_free(tree, transport_trees):
+    """[(fact, holds)] — SSHKnownHosts(file) reads and parses the file on EVERY construction and nothing of an earlier
+    read survives it, and the library transports construct it anew inside every check:
+      no class-level attribute on SSHKnownHosts (a dict there outlives every object), no decorator on its methods
+      (functools caches), no global / nonlocal, no store through the class (type(self).x, self.__class__.x, SSHKnownHosts.x,
+      cls.x), no module-level container the class's code refers to, no file-metadata call (getmtime / stat / getsize ...:
+      what a staleness test would be made of), __init__ contains the read (read_text / open / read) with no `return`
+      anywhere in it (no early exit around the read) and `_parse` is called in it; every library transport calls
+      SSHKnownHosts( only inside _verify_key / _verify_key_value (a fresh object per check; what the transport object
+      itself stores is gen_state_*)."""
+    cls = find_class(tree, "SSHKnownHosts")
+    facts = []
+    class_attrs = [n for n in cls.body if isinstance(n, (ast.Assign, ast.AnnAssign, ast.AugAssign))]
+    facts.append(("no class-level attribute", not class_attrs))
+    funcs = [n for n in cls.body if isinstance(n, (ast.FunctionDef, ast.AsyncFunctionDef))]
+    other = [n for n in cls.body if not isinstance(n, (ast.FunctionDef, ast.AsyncFunctionDef, ast.Assign, ast.AnnAssign, ast.AugAssign))
+             and not (isinstance(n, ast.Expr) and isinstance(n.value, ast.Constant) and isinstance(n.value.value, str))]
+    if other:
+        raise ValueError("SSHKnownHosts body contains %s: not understood" % type(other[0]).__name__)
+    facts.append(("no decorator on a method", not any(f.decorator_list for f in funcs)))
+    names_used, stores_via_class, glob, stat_calls, cache_names = set(), [], [], [], []
+    for n in ast.walk(cls):
+        if isinstance(n, ast.Name):
+            names_used.add(n.id)
+            if n.id in CACHE_DECORATORS:
+                cache_names.append(n.id)
+        if isinstance(n, ast.Attribute) and n.attr in CACHE_DECORATORS:
+            cache_names.append(n.attr)
+        if isinstance(n, (ast.Global, ast.Nonlocal)):
+            glob.append(n)
+        if isinstance(n, ast.Attribute):
+            src = ast.unparse(n.value)
+            if src in ("type(self)", "self.__class__", "SSHKnownHosts", "cls") or "__dict__" in src:
+                stores_via_class.append(ast.unparse(n))
+        if isinstance(n, ast.Call) and call_name(n) in STAT_CALLS:
+            stat_calls.append(call_name(n))
+    facts.append(("no functools cache", not cache_names))
+    facts.append(("no global / nonlocal", not glob))
+    facts.append(("no access through the class object", not stores_via_class))
+    facts.append(("no file-metadata call", not stat_calls))
+    module_containers = []
+    for n in tree.body:
+        if isinstance(n, (ast.Assign, ast.AnnAssign)) and n.value is not None and \
+                isinstance(n.value, (ast.Dict, ast.List, ast.Set, ast.Call, ast.ListComp, ast.DictComp, ast.SetComp)):
+            for t in (n.targets if isinstance(n, ast.Assign) else [n.target]):
+                if isinstance(t, ast.Name) and t.id in names_used:
+                    module_containers.append(t.id)
+    facts.append(("no module-level container referred to", not module_containers))
+    init = find_func(cls, "__init__")
+    reads = [c for c in ast.walk(init) if isinstance(c, ast.Call) and call_name(c) in ("read_text", "open", "read", "read_bytes")]
+    returns = [r for r in ast.walk(init) if isinstance(r, ast.Return)]
+    parses = [c for c in ast.walk(init) if isinstance(c, ast.Call) and call_name(c) == "_parse"]
+    facts.append(("__init__ reads the file", len(reads) == 1))
+    facts.append(("__init__ has no return around the read", not returns))
+    facts.append(("__init__ parses what it read", len(parses) == 1))
+    lookup = find_func(cls, "lookup")
+    lookup_stores = [n for n in ast.walk(lookup) if isinstance(n, (ast.Attribute, ast.Subscript)) and isinstance(n.ctx, ast.Store)]
+    facts.append(("lookup stores nothing", not lookup_stores))
+    for k, cname in (("paramiko", "ParamikoTransport"), ("ssh2", "Ssh2Transport"), ("asyncssh", "AsyncsshTransport")):
+        tcls = find_class(transport_trees[k], cname)
+        inside, outside = 0, 0
+        for f in tcls.body:
+            if isinstance(f, (ast.FunctionDef, ast.AsyncFunctionDef)):
+                cnt = sum(1 for c in ast.walk(f) if isinstance(c, ast.Call) and call_name(c) == "SSHKnownHosts")
+                if f.name in ("_verify_key", "_verify_key_value"):
+                    inside += cnt
+                else:
+                    outside += cnt
+        mod_level = sum(1 for n in transport_trees[k].body if not isinstance(n, ast.ClassDef)
+                        for c in ast.walk(n) if isinstance(c, ast.Call) and call_name(c) == "SSHKnownHosts")
+        facts.append(("%s constructs SSHKnownHosts inside its checks only" % k, inside >= 1 and outside == 0 and mod_level == 0))
+    return facts
+
+
 def generate(outdir):
     from scrapli.driver import AsyncGenericDriver, AsyncNetworkDriver, GenericDriver, NetworkDriver
     from scrapli.driver import core
@@ -322,6 +400,11 @@ def generate(outdir):
     lines.append("Definition gen_asyncssh_mapped : list (N * N) := [%s]." % "; ".join("(%d, %d)" % m for m in mapped))
     info["asyncssh_known_hosts"] = kh
     info["asyncssh_mapped"] = mapped
+    # 4c. known_hosts is read and parsed at every check (no memo of an earlier read)
+    memo = known_hosts_memo_free(parse("scrapli/ssh_config.py"), trees)
+    lines.append("Definition gen_known_hosts_memo_free : list (list N * bool) := [%s]." % "; ".join(
+        "(%s, %s)" % (cb(n), "true" if d else "false") for n, d in memo))
+    info["known_hosts_memo_free"] = {n: d for n, d in memo}
     # 5. system transport literals
     sfn = find_func(find_class(trees["system"], "SystemTransport"), "_build_open_cmd")
     kind, off, on = system_hostkey(sfn)
